@@ -7,6 +7,7 @@
   correspondence runs by an implementation independent of the code under test.
 -/
 import PowHsm.Admin.CertGraph
+import PowHsm.Admin.CertLinks
 namespace PowHsm
 namespace Props.C06
 open Cert
@@ -38,6 +39,49 @@ theorem valid_iff (lv : Option Elem → Elem → Bool) (path : List Elem) (c : O
         rw [ih (some e)]
         simp [links]
       · simp [h]
+
+/-- the code's combination of the library facts is the property's wording of a link: an X.509
+    element is inside its validity period and signed by an X.509 certifier; an attestation key / a quote
+    is bound to its report data and signed by a certifier that has a key -/
+theorem linkValid_iff (f : LinkFacts) : linkValid f = true ↔ LinkHolds f := by
+  unfold linkValid LinkHolds
+  cases hk : f.kind <;> simp only []
+  · -- X.509
+    unfold x509Valid
+    by_cases h1 : f.certifierIsX509 = true <;> by_cases h2 : f.loads = true <;>
+      by_cases h3 : f.notBefore ≤ f.now <;> by_cases h4 : f.now ≤ f.notAfter <;>
+      simp [h1, h2, h3, h4, Int.not_le.mp, Int.not_lt.mpr] <;> omega
+  · unfold sgxValid
+    by_cases h1 : f.loads = true <;> by_cases h2 : f.bound = true <;> by_cases h3 : f.certifierHasKey = true <;>
+      simp [h1, h2, h3]
+  · unfold sgxValid
+    by_cases h1 : f.loads = true <;> by_cases h2 : f.bound = true <;> by_cases h3 : f.certifierHasKey = true <;>
+      simp [h1, h2, h3]
+  · unfold v1Valid
+    cases f.tweaked <;> simp
+  · simp
+
+/-- **the property, link by link** (version 1): with the per-link facts of a certificate, a target is
+    reported valid if and only if it is the last element of its path and every element of the path
+    carries a signature that verifies under its certifier's key (the root key for the topmost one) —
+    under the key tweaked by HMAC-SHA256(tweak, key) whenever the element declares a tweak; paths of
+    any length -/
+theorem valid_iff_conditions (facts : Option Elem → Elem → LinkFacts) (path : List Elem) (c : Option Elem)
+    (leaf : Elem) :
+    validateDown (fun c e => linkValid (facts c e)) c path = some (.valid leaf) ↔
+      path.getLast? = some leaf ∧ ∀ l ∈ links c path, LinkHolds (facts l.1 l.2) := by
+  rw [valid_iff]
+  constructor
+  · rintro ⟨h1, h2⟩
+    exact ⟨h1, fun l hl => (linkValid_iff _).1 (h2 l hl)⟩
+  · rintro ⟨h1, h2⟩
+    exact ⟨h1, fun l hl => (linkValid_iff _).2 (h2 l hl)⟩
+
+/-- a declared tweak is not optional: a signature that verifies only under the untweaked key does not
+    make the link valid (non-vacuity of the tweak clause) -/
+example : linkValid { kind := .v1, tweaked := true, sigOk := true, sigOkTweaked := false } = false ∧
+          linkValid { kind := .v1, tweaked := true, sigOk := false, sigOkTweaked := true } = true ∧
+          linkValid { kind := .v1, tweaked := false, sigOk := true } = true := by decide
 
 /-- the first element of a top-down path whose link does not verify, with its certifier -/
 def firstFailing (lv : Option Elem → Elem → Bool) : Option Elem → List Elem → Option (Option Elem × Elem)
